@@ -5,6 +5,7 @@ import (
 	"go/token"
 	"go/types"
 	"sort"
+	"strings"
 
 	"golang.org/x/tools/go/ssa"
 
@@ -466,6 +467,14 @@ func (c *Ctx) sliceObligations(eng *ranges.Engine, funcs map[*ssa.Function]bool,
 								nv := eng.At(fn, n, b)
 								construct := addrExpr(x.X) + "[" + addrExpr(x.Low) + " : " + addrExpr(x.Low) + "+" + addrExpr(n) + "]"
 								sts, d := decideRange(nv, 0, posInf, false)
+								if c.Dump == "unordered" {
+									fmt.Printf("UNORDERED site %s %s status=%v taint=%v stream=%v\n", load.FuncName(fn), construct, sts, nv.Taint, streamSlice(fn, x.X))
+								}
+								if sts == report.OutOfScope && nv.Taint && streamSlice(fn, x.X) {
+									if pair, found := c.unorderedDifference(eng, fn, n, b); found {
+										sts, d = report.Violated, "it is the difference "+pair+" of two stream-derived quantities, and no branch anywhere in the library compares the two: a stream that makes the second larger gives a negative length (slice bounds out of range)"
+									}
+								}
 								add("SLICE-ORDER", fn, construct, sts, ins, "length operand of the slice expression: "+d)
 							}
 						}
@@ -952,4 +961,264 @@ func (c *Ctx) fieldMinLen(eng *ranges.Engine, fa *ssa.FieldAddr, depth int) (int
 	}
 	c.minLenMemo[key] = [2]int64{best, 1}
 	return best, true
+}
+
+// ---------------------------------------------------------------------------------------------
+// Unordered difference: a length n = X - Y built from two stream-derived quantities that no test
+// anywhere in the library ever orders (X >= Y) can be negative, and s[a : a+n] then panics with
+// slice bounds out of range. Quantities are identified by where they live, not by SSA value: a
+// struct field (any element of an array/slice field counts as the field), len() of a field, or a
+// local value that is stored into such a field. The verdict is given only when both operands
+// resolve to such keys; parameters, phis of unrelated things and arithmetic are not decided.
+
+// srcKeys: the storage keys v is read from (through helper calls that return such reads, depth 2).
+func srcKeys(v ssa.Value, depth int) (keys map[string]bool, ok bool) {
+	keys = map[string]bool{}
+	ok = true
+	var walk func(x ssa.Value, d int)
+	seen := map[ssa.Value]bool{}
+	fieldKeyOf := func(addr ssa.Value) string {
+		for i := 0; i < 6; i++ {
+			switch a := addr.(type) {
+			case *ssa.IndexAddr:
+				addr = a.X
+			case *ssa.UnOp:
+				if a.Op != token.MUL {
+					return ""
+				}
+				addr = a.X
+			case *ssa.FieldAddr:
+				if n := namedOfRecv(a.X.Type()); n != nil {
+					return n.Obj().Pkg().Path() + "." + n.Obj().Name() + "." + fieldNameOf(a.X.Type(), a.Field)
+				}
+				return ""
+			default:
+				return ""
+			}
+		}
+		return ""
+	}
+	walk = func(x ssa.Value, d int) {
+		if seen[x] || d > 8 {
+			return
+		}
+		seen[x] = true
+		// a value that is also stored into a field carries that field's key
+		if refs := x.Referrers(); refs != nil {
+			for _, r := range *refs {
+				if st, isSt := r.(*ssa.Store); isSt && st.Val == x {
+					if k := fieldKeyOf(st.Addr); k != "" {
+						keys[k] = true
+					}
+				}
+			}
+		}
+		switch y := x.(type) {
+		case *ssa.Const:
+		case *ssa.Convert:
+			walk(y.X, d+1)
+		case *ssa.ChangeType:
+			walk(y.X, d+1)
+		case *ssa.Phi:
+			for _, e := range y.Edges {
+				walk(e, d+1)
+			}
+		case *ssa.UnOp:
+			if y.Op != token.MUL {
+				ok = false
+				return
+			}
+			if k := fieldKeyOf(y.X); k != "" {
+				keys[k] = true
+			} else if cell, isCell := y.X.(*ssa.Alloc); isCell && cell.Referrers() != nil {
+				// a local variable (var off uint32; binary.Read(r, …, &off)): every load of the cell is
+				// the same quantity, and it carries the key of any field one of them is stored into
+				for _, cr := range *cell.Referrers() {
+					ld, isLd := cr.(*ssa.UnOp)
+					if !isLd || ld.Op != token.MUL || ld.Referrers() == nil {
+						continue
+					}
+					vals := []ssa.Value{ld}
+					for _, lr := range *ld.Referrers() {
+						if cv, isCv := lr.(*ssa.Convert); isCv {
+							vals = append(vals, cv)
+						}
+					}
+					for _, val := range vals {
+						if val.Referrers() == nil {
+							continue
+						}
+						for _, vr := range *val.Referrers() {
+							if st, isSt := vr.(*ssa.Store); isSt && st.Val == val {
+								if k := fieldKeyOf(st.Addr); k != "" {
+									keys[k] = true
+								}
+							}
+						}
+					}
+				}
+				if len(keys) == 0 {
+					ok = false
+				}
+			} else if len(keys) == 0 {
+				ok = false
+			}
+		case *ssa.Call:
+			if s, isLen := isLenOf(y); isLen {
+				if ld, isLd := s.(*ssa.UnOp); isLd && ld.Op == token.MUL {
+					if k := fieldKeyOf(ld.X); k != "" {
+						keys["len:"+k] = true
+						return
+					}
+				}
+				// len of a value that is also kept in a field (dec := &T{data: data}; … len(data))
+				if refs := s.Referrers(); refs != nil {
+					for _, r := range *refs {
+						if st, isSt := r.(*ssa.Store); isSt && st.Val == s {
+							if k := fieldKeyOf(st.Addr); k != "" {
+								keys["len:"+k] = true
+							}
+						}
+					}
+				}
+				if len(keys) == 0 {
+					ok = false
+				}
+				return
+			}
+			sc := y.Call.StaticCallee()
+			if sc == nil || sc.Blocks == nil || !load.InScope(sc) || depth+d > 10 {
+				ok = false
+				return
+			}
+			for _, b := range sc.Blocks {
+				if len(b.Instrs) == 0 {
+					continue
+				}
+				if ret, isRet := b.Instrs[len(b.Instrs)-1].(*ssa.Return); isRet && len(ret.Results) >= 1 {
+					walk(ret.Results[0], d+2)
+				}
+			}
+		default:
+			if len(keys) == 0 {
+				ok = false
+			}
+		}
+	}
+	walk(v, 0)
+	if len(keys) == 0 {
+		ok = false
+	}
+	return keys, ok
+}
+
+// subOperands: v is X - Y, directly or as what a helper returns on some path.
+func subOperands(v ssa.Value, depth int) [][2]ssa.Value {
+	switch x := v.(type) {
+	case *ssa.BinOp:
+		if x.Op == token.SUB {
+			return [][2]ssa.Value{{x.X, x.Y}}
+		}
+	case *ssa.Convert:
+		return subOperands(x.X, depth)
+	case *ssa.Call:
+		sc := x.Call.StaticCallee()
+		if sc == nil || sc.Blocks == nil || !load.InScope(sc) || depth > 1 {
+			return nil
+		}
+		var out [][2]ssa.Value
+		for _, b := range sc.Blocks {
+			if len(b.Instrs) == 0 {
+				continue
+			}
+			if ret, ok := b.Instrs[len(b.Instrs)-1].(*ssa.Return); ok && len(ret.Results) == 1 {
+				out = append(out, subOperands(ret.Results[0], depth+1)...)
+			}
+		}
+		return out
+	}
+	return nil
+}
+
+// orderedSomewhere: some branch condition in the library compares a quantity carrying a key of kx
+// with one carrying a key of ky (for one shared key: the key appears on both sides, or the condition
+// tests a difference of two such quantities).
+func (c *Ctx) orderedSomewhere(kx, ky map[string]bool) bool {
+	has := func(ks, want map[string]bool) bool {
+		for k := range ks {
+			if want[k] {
+				return true
+			}
+		}
+		return false
+	}
+	for _, fn := range c.scopeFuncs() {
+		for _, b := range fn.Blocks {
+			bo, ok := ifCond(b).(*ssa.BinOp)
+			if !ok {
+				continue
+			}
+			switch bo.Op {
+			case token.LSS, token.GTR, token.LEQ, token.GEQ, token.EQL, token.NEQ:
+			default:
+				continue
+			}
+			sides := [2]map[string]bool{}
+			for i, s := range []ssa.Value{bo.X, bo.Y} {
+				ks := map[string]bool{}
+				for v := range backwardSlice(s, 60) {
+					if k1, _ := srcKeys(v, 0); len(k1) > 0 {
+						for k := range k1 {
+							ks[k] = true
+						}
+					}
+				}
+				sides[i] = ks
+			}
+			if (has(sides[0], kx) && has(sides[1], ky)) || (has(sides[0], ky) && has(sides[1], kx)) {
+				return true
+			}
+			// a difference of the two tested against something: (x - y) < 0
+			for _, s := range []ssa.Value{bo.X, bo.Y} {
+				for v := range backwardSlice(s, 60) {
+					if sb, ok := v.(*ssa.BinOp); ok && sb.Op == token.SUB {
+						a, _ := srcKeys(sb.X, 0)
+						bb, _ := srcKeys(sb.Y, 0)
+						if (has(a, kx) && has(bb, ky)) || (has(a, ky) && has(bb, kx)) {
+							return true
+						}
+					}
+				}
+			}
+		}
+	}
+	return false
+}
+
+// unorderedDifference: n is X - Y of two stream quantities that nothing orders. Returns a
+// description of the pair when the witness shape applies.
+func (c *Ctx) unorderedDifference(eng *ranges.Engine, fn *ssa.Function, n ssa.Value, b *ssa.BasicBlock) (string, bool) {
+	for _, p := range subOperands(n, 0) {
+		kx, okx := srcKeys(p[0], 0)
+		ky, oky := srcKeys(p[1], 0)
+		if c.Dump == "unordered" {
+			fmt.Printf("UNORDERED %s: %s - %s keys %v(%v) %v(%v)\n", load.FuncName(fn), addrExpr(p[0]), addrExpr(p[1]), kx, okx, ky, oky)
+		}
+		if !okx || !oky {
+			continue
+		}
+		if c.orderedSomewhere(kx, ky) {
+			continue
+		}
+		names := func(m map[string]bool) string {
+			var out []string
+			for k := range m {
+				out = append(out, strings.TrimPrefix(k, load.ModPath+"/"))
+			}
+			sort.Strings(out)
+			return strings.Join(out, ",")
+		}
+		return fmt.Sprintf("%s - %s", names(kx), names(ky)), true
+	}
+	return "", false
 }
